@@ -17,7 +17,7 @@ def hx(b):
 class C13(Prop):
     id = "C13"
     title = "Input framing ignores packet boundaries and survives any byte stream"
-    lean_modules = ["NV.C13.Props", "NV.C13.Witness", "NV.C13.Negative"]
+    lean_modules = ["NV.C13.Props", "NV.C13.Witness", "NV.C13.Negative", "NV.C13.TableTie", "NV.C13.XTable", "NV.C13.Lemmas18", "NV.C13.Lemmas19", "NV.C13.Lemmas20"]
     theorems = ["NV.C13.ts_layout", "NV.C13.sb_array_has_room", "NV.C13.sb_in_bounds", "NV.C13.copy_chars_expansion",
                 "NV.C13.buffer_writes_in_bounds", "NV.C13.space_rule_sufficient", "NV.C13.space_rule_numbers",
                 "NV.C13.input_never_overflows", "NV.C13.segmentation_independent",
@@ -29,7 +29,11 @@ class C13(Prop):
                 "NV.C13.copyCharsO_ok", "NV.C13.asciiLoop_exact", "NV.C13.getUserData_ok",
                 "NV.C13.single_char_extraction_safe", "NV.C13.run_never_crashes", "NV.C13.getUserData_N",
                 "NV.C13.addConsoleLine_N", "NV.C13.console_lines_delivered", "NV.C13.console_line_exact",
-                "NV.C13.consoleLines_eq_cmdsOf", "NV.C13.statement_order_tie"]
+                "NV.C13.consoleLines_eq_cmdsOf", "NV.C13.statement_order_tie",
+                "NV.C13.cc_table_tie", "NV.C13.cc_table_states", "NV.C13.cc_table_total", "NV.C13.cc_table_no_crash", "NV.C13.edit_bytes_tie", "NV.C13.x_table_tie", "NV.C13.x_table_complete",
+                "NV.C13.reframeLoop_len", "NV.C13.reframe_N", "NV.C13.setCall_N", "NV.C13.endInput_N",
+                "NV.C13.reframe_is_line_framing", "NV.C13.getUserData_evok", "NV.C13.run_events_safe",
+                "NV.C13.reframe_exact", "NV.C13.typeahead_lines_after_mode_end", "NV.C13.workerChunks_len", "NV.C13.doWpipe_rinv"]
     witness_theorems = ["NV.C13.sb_terminator_overflows_exact_array", "NV.C13.ayt_returns_to_data",
                         "NV.C13.full_sb_payload_is_not_text", "NV.C13.ascii_spec_example",
                         "NV.C13.burst_check", "NV.C13.telnet_lines_delivered_Full_false"]
@@ -61,31 +65,47 @@ class C13(Prop):
     search_n = 120
     design_ref = "5/C13"
     technique = ("Lean 4 proof (buffer invariant, decoder/grammar simulation, induction over read/extract schedules) + "
-                 "constants and the get_user_data space rule regenerated from the source + model/implementation "
-                 "correspondence on the real get_user_data/copy_chars/get_user_command")
+                 "constants, the get_user_data space rule, statement orders and the COMPLETE transition table of copy_chars "
+                 "(state x byte -> state, actions; obtained by running the real function on every byte in every decoder "
+                 "configuration) regenerated from the source, with Lean bridging lemmas + model/implementation "
+                 "correspondence on the real get_user_data/copy_chars/get_user_command/set_call/call_function_interactive/"
+                 "console_worker_proc_posix/process_io")
     level_text = ("Lean 4 theorems about an executable model of src/comm.c input framing (copy_chars telnet decoder, "
                   "get_user_data space rule/compaction/discard, PORT_ASCII and PORT_BINARY paths, first/next_cmd_in_buf, "
-                  "telnet_neg editing, add_console_line) for all byte streams and all read/extract schedules; tied to the "
-                  "source by regenerated constants and guard numbers and by running the real functions and the model on "
-                  "the same streams under exhaustive 2-splits and random k-splits; the Lean oracle judges every real trace")
-    level_note = ("trusted: Lean kernel; extract.py + the regexes in props/c13.py that read TS_* and the space rule from "
-                  "comm.c; the correspondence harness (recv/send interposed, apply renamed inside the included comm.c); "
-                  "single-character mode is modelled for memory safety only; NOECHO, snooping, ed and the LPC side of "
-                  "process_input are not modelled")
+                  "telnet_neg editing, add_console_line, the console worker's read/terminate/enqueue step, get_char()/input_to() mode switches with set_telnet_single_char, "
+                  "reframe_single_char_input and NOECHO) for all byte streams and all read/extract/mode-switch schedules; "
+                  "tied to the source by regenerated constants, guard numbers, statement orders, the exhaustive copy_chars "
+                  "transition table (29 184 transitions compared in Lean), the small-scope exhaustive table of cmd_in_buf/"
+                  "first_cmd_in_buf/next_cmd_in_buf (2046 configurations) and the editing/terminator byte sets, and by "
+                  "running the real functions and the model on the same streams under exhaustive 2-splits and random "
+                  "k-splits; the Lean oracle judges every real trace; its crash/index/ask/line-length clauses are a theorem "
+                  "on model traces (run_events_safe)")
+    level_note = ("trusted: Lean kernel; extract.py + the regexes in props/c13.py that read TS_* and the guards from "
+                  "comm.c; the correspondence harness (recv/send interposed, apply renamed inside the included comm.c) and "
+                  "its ccprobe/edprobe commands that produce the transition table; the table covers single steps from "
+                  "canonical sub-negotiation buffers (that copy_chars is the fold of these steps is checked by the sampled "
+                  "correspondence only); framing clauses of the oracle are proved over schedule runs (fRun/cRun), not over "
+                  "the event list of the case-language run; single-character mode: memory safety, reframing = line framing "
+                  "for well-formed line ends, no delivery-granularity clause; the `!` escape, snooping, ed and the LPC side "
+                  "of process_input are not modelled")
     rule = ("quantifier coverage: streams = text, CR/LF/NUL combinations, IAC negotiations, complete / incomplete / "
             "oversized (97..300 byte) sub-negotiations, 8-bit data, lines of 600..4200 bytes (> 2 KiB buffer); "
             "segmentations = unsplit, ALL 2-splits of streams <= 28 bytes, random k-splits, 1-byte reads, reads on an "
             "empty socket; ports = telnet, ascii, binary, console; interleavings = extraction at the end / after each "
             "read / at random; callbacks = ok / LPC error / destruct at random ordinals; single-char mode switched on at "
-            "a random read.  "
+            "a random read; get_char()/input_to() (with and without NOECHO) and serve steps at random points, 300..700 raw "
+            "CR LF pairs typed ahead of a get_char (reframe room test at 680..684 pairs).  "
             "cases = corpus + known-finding inputs + boundary list + seeded streams (text, CR/LF/NUL mixes, IAC "
             "negotiations, complete/incomplete/oversized sub-negotiations, 8-bit data, lines > 2 KiB) x segmentations "
             "(all 2-splits of short streams, random k-splits, 1-byte reads) x extraction interleavings on telnet, ascii, "
             "binary ports and the console; non-trivial = trace has >= 2 lines; distinct = distinct canonical trace")
-    not_covered = ["single-character mode: delivery granularity is outside the statement (memory safety is covered)",
-                   "NOECHO handling in get_user_command, snooping, ed, termios",
+    not_covered = ["single-character mode: delivery granularity is outside the statement (memory safety, mode switches and "
+                   "reframing are covered)",
+                   "the `!` shell escape of process_user_command (WAS_SINGLE_CHAR), snooping, ed, termios / console get_char",
                    "what the LPC user object does with the line after process_input",
-                   "Windows IOCP completion path of get_user_data (evt != NULL)"]
+                   "Windows IOCP completion path of get_user_data (evt != NULL); recv() errno paths other than EWOULDBLOCK",
+                   "console worker: thread scheduling, select() timeouts, queue overflow policy (the worker procedure, the line "
+                   "queue and the process_io console branch are run for real, single-threaded, one read per blob)"]
 
     # ---- tie: numbers that are not header constants ---------------------
     def gen_extra(self, ctx, bdir):
@@ -118,6 +138,17 @@ class C13(Prop):
         out.append("/-- C: first_cmd_in_buf `if (ip->text_end > MAX_TEXT - N)` -/\ndef cutMargin : Nat := %d" % v)
         v = need("ascii space", r"text_space = MAX_TEXT - ip->text_end - (\d+);", count=1)
         out.append("/-- C: get_user_data PORT_ASCII/BINARY `text_space = MAX_TEXT - ip->text_end - N` -/\ndef asciiReserve : Nat := %d" % v)
+        ms = re.findall(r"if \(to \+ (\d+) >= MAX_TEXT - (\d+)\)\s*\n\s*return;", src)
+        if len(ms) != 1:
+            raise X.TieBroken("guard:reframe room test", "cannot locate `if (to + N >= MAX_TEXT - M) return;` of reframe_single_char_input (matched %r)" % (ms,))
+        out.append("/-- C: reframe_single_char_input `if (to + N >= MAX_TEXT - M) return;` -/\ndef reframeNeed : Nat := %s\ndef reframeReserve : Nat := %s" % ms[0])
+        wsrc = open(os.path.join(E.REPO, "lib/async/console_worker.c"), errors="replace").read()
+        ms = re.findall(r"read\(STDIN_FILENO, line_buffer, CONSOLE_MAX_LINE - (\d+)\)", wsrc)
+        if len(ms) != 1 or wsrc.count("char line_buffer[CONSOLE_MAX_LINE];") < 1 or wsrc.count("line_buffer[bytes_read] = '\\0';") != 1 \
+                or wsrc.count("async_queue_enqueue(cctx->line_queue, line_buffer, bytes_read + 1)") != 1 \
+                or src.count("async_queue_dequeue(g_console_queue, line_buffer, sizeof(line_buffer), &line_length)") != 1:
+            raise X.TieBroken("guard:console worker read", "cannot locate the read / terminator / enqueue / dequeue statements of the console path (read sizes matched: %r)" % (ms,))
+        out.append("/-- C: lib/async/console_worker.c `read (STDIN_FILENO, line_buffer, CONSOLE_MAX_LINE - N)` -/\ndef consoleReadReserve : Nat := %s" % ms[0])
         need("console guard", r"if \(ip->text_end \+ len >= (MAX_TEXT)(?: && !cmd_in_buf \(ip\))?\)", str, count=2)
         # statement order (T4): the PORT_ASCII line loop and add_console_line's checks, as the order of named
         # statements in the source text; the model states the order it implements and a bridging lemma compares
@@ -161,10 +192,174 @@ class C13(Prop):
         banner = "\n[%s-%s] \n" % (pk.group(1), ve.group(1))
         out.append("/-- C: AYT answer `add_vmessage (\"\\n[%%s-%%s] \\n\", PACKAGE, VERSION)` as bytes -/\ndef aytBanner : List Nat := [%s]"
                    % ", ".join(str(b) for b in banner.encode()))
+        out.append(self.cc_table(ctx))
         return "\n".join(out)
 
+    # ---- tie: the transition table of copy_chars, read off the real function ------------------------------
+    def cc_configs(self):
+        """(ts, cr, single, sb_pos, fill, sb_buf prefix) - every value of `state & TS_STATE_MASK` (0..15: the eight
+        TS_* codes and the eight values no `case` handles) x TS_CR_SEEN x SINGLE_CHAR; sub-negotiation states also with
+        sb_pos = SB_SIZE-1 / SB_SIZE, TS_SB_IAC also with every kind of payload the IAC SE handler distinguishes"""
+        tt_is = bytes([TT, 0]) + b"xt"
+        slc = bytes([LM, 3, 1, 2, 3, 2, 0x82, 5, 200, 1, 65, 3, 3, 5, 5, 0, 1, 6, 2, 65, 7, 1, 127, 120, 2, 3, 0, 9, 0, 8, 2, 4, 9, 9])
+        se = [("%d" % len(x), 0, x) for x in (
+            tt_is, bytes([TT, 1]), bytes([TT]), bytes([NAWS, 0, 80, 0, 24]), bytes([NAWS, 1]), bytes([LM, 1, 3]), bytes([LM, 1, 4]),
+            slc, slc[:5], slc[:4], bytes([LM, 9, 1]), bytes([70, 65, 66]), bytes([70, 65, 0, 66]))]
+        se += [("S", 65, tt_is[:2]), ("S", 66, b"")]
+        C = []
+        for ts in range(16):
+            for cr in (0, 1):
+                for single in (0, 1):
+                    vs = [("0", 0, b"")]
+                    if ts == 1:
+                        vs.append(("3", 0, bytes([1, 2, 3])))
+                    if ts in (6, 7):
+                        vs += [("S-1", 65, b""), ("S", 65, b"")]
+                    if ts == 7 and cr == 0:
+                        vs += se
+                    for sbpos, fill, pre in vs:
+                        C.append((ts, cr, single, sbpos, fill, pre))
+        return C
+
+    def cc_table(self, ctx):
+        try:
+            self.exe = E.compile_harness("c13", [os.path.join(E.VERIF, "harness/c13/c13.c"), os.path.join(E.VERIF, "harness/c13/c13w.c")], exclude_objs=("comm.c.o",))
+        except E.BuildError as e:
+            raise X.TieBroken("cc-table", "the harness does not build against the source: %s" % str(e)[-400:])
+        rd = os.path.join(ctx.rundir, "cctable")
+        conf = E.make_mudlib(rd)
+        cases = [E.Case("cc%d" % i, ["port telnet", "ccprobe %d %d %d %s %d %s" % (ts, cr, single, sbpos, fill, hx(pre))])
+                 for i, (ts, cr, single, sbpos, fill, pre) in enumerate(self.cc_configs())]
+        cases.append(E.Case("ed", ["port telnet", "edprobe"]))
+        cases.append(E.Case("xp", ["port telnet", "xprobe"]))
+        res = E.run_harness(self.exe, conf, cases, rd)
+        edit_txt = self.edit_bytes(res.get("ed", [])) + "\n" + self.x_table(res.get("xp", []))
+        cases.pop()
+        cases.pop()
+
+        def sym(vals, b):
+            return [256 if v == b else v for v in vals]
+
+        def lst(xs):
+            return "[" + ", ".join(str(x) for x in xs) + "]"
+        cfgs = []
+        for c in cases:
+            lines = res.get(c.id, [])
+            cfg = [l.split() for l in lines if l.startswith("cfg ")]
+            rs = [l.split() for l in lines if l.startswith("r ")]
+            if len(cfg) != 1 or len(rs) != 256 or any(len(r) != 10 for r in rs) or any(l.startswith(("crash", "sanitizer")) for l in lines):
+                raise X.TieBroken("cc-table", "copy_chars transition probe failed for `%s`: %s" % (c.lines[1], " / ".join(lines[-3:])[:400]))
+            rows = []
+            for r in rs:
+                b = int(r[1])
+                unh = lambda h: [] if h == "-" else list(bytes.fromhex(h))
+                sbd = [] if r[8] == "-" else [tuple(int(x) for x in d.split(":")) for d in r[8].split(",")]
+                cbs = []
+                if r[9] != "-":
+                    for cb in r[9].split(","):
+                        f = cb.split(":")
+                        cbs.append((2, [int(f[1]), int(f[2])]) if f[0] == "n" else ({"t": 0, "s": 1}[f[0]], unh(f[1])))
+                key = (int(r[2]), int(r[3]), int(r[4]), int(r[5]), tuple(sym(unh(r[6]), b)), tuple(sym(unh(r[7]), b)),
+                       tuple((i, 256 if v == b else v) for i, v in sbd), tuple((k, tuple(a)) for k, a in cbs))
+                if rows and rows[-1][2] == key and rows[-1][1] == b - 1:
+                    rows[-1][1] = b
+                else:
+                    rows.append([b, b, key])
+            t = cfg[0]
+            pre = [] if t[6] == "-" else list(bytes.fromhex(t[6]))
+            rtxt = ",\n    ".join(
+                "{ lo := %d, hi := %d, st := %d, sbPos := %d, fl := %d, lm := %d, out := %s, tx := %s, sbd := %s, cbs := %s }"
+                % (lo, hi, k[0], k[1], k[2], k[3], lst(k[4]), lst(k[5]), lst("(%d, %d)" % d for d in k[6]),
+                   lst("(%d, %s)" % (kk, lst(a)) for kk, a in k[7])) for lo, hi, k in rows)
+            cfgs.append("  { ts := %s, cr := %s, single := %s, sbPos := %s, sbFill := %s, sbPre := %s, rows := [\n    %s] }"
+                        % (t[1], t[2], t[3], t[4], t[5], lst(pre), rtxt))
+        return ("""/-- one row of the transition table of copy_chars: input bytes lo..hi, in the configuration of the enclosing `CcCfg`,
+    leave `ip->state = st`, `sb_pos = sbPos`, iflags (masked) `fl`, `telnet_sb_lm_mode[4] = lm`, store `out`, send `tx`,
+    change the listed `sb_buf` cells and make the callbacks `cbs` (0 terminal_type, 1 telnet_suboption, 2 window_size);
+    the value 256 stands for the input byte itself -/
+structure CcRow where
+  lo : Nat
+  hi : Nat
+  st : Nat
+  sbPos : Nat
+  fl : Nat
+  lm : Nat
+  out : List Nat
+  tx : List Nat
+  sbd : List (Nat × Nat)
+  cbs : List (Nat × List Nat)
+/-- a decoder configuration: `state & TS_STATE_MASK`, TS_CR_SEEN, SINGLE_CHAR, sb_pos, sb_buf = sbPre padded with sbFill up to
+    sb_pos (zero behind), `telnet_sb_lm_mode[4] = MODE_ACK` -/
+structure CcCfg where
+  ts : Nat
+  cr : Nat
+  single : Nat
+  sbPos : Nat
+  sbFill : Nat
+  sbPre : List Nat
+  rows : List CcRow
+/-- C: the transition table of `copy_chars`, obtained by running the real function on every byte value in every
+    configuration (harness/c13/c13.c `ccprobe`) -/
+def ccTable : List CcCfg := [
+""" + ",\n".join(cfgs) + "]\n" + edit_txt)
+
+    def x_table(self, lines):
+        """small-scope exhaustive behaviour of the real cmd_in_buf / first_cmd_in_buf / next_cmd_in_buf (harness `xprobe`)"""
+        rs = [l.split()[1:] for l in lines if l.startswith("x ")]
+        if len(rs) < 2000 or any(len(r) != 14 or not all(x.isdigit() for x in r) for r in rs) or \
+                any(l.startswith(("crash", "sanitizer")) for l in lines):
+            raise X.TieBroken("x-table", "xprobe failed: %d rows; %s" % (len(rs), " / ".join(lines[-3:])[:300]))
+        widths = [1, 3, 5, 3, 3, 1, 3, 3, 3, 16, 3, 3, 3, 16]
+        codes = []
+        for r in rs:
+            c, sh = 0, 0
+            for v, w in zip(r, widths):
+                v = int(v)
+                if v >= (1 << w):
+                    raise X.TieBroken("x-table", "xprobe value %d does not fit its %d-bit field: %s" % (v, w, " ".join(r)))
+                c |= v << sh
+                sh += w
+            codes.append(c)
+        chunks = [codes[i:i + 128] for i in range(0, len(codes), 128)]
+        out = ["/-- C: chunk %d of xTable -/\ndef xTable%d : List Nat := [%s]" % (i, i, ", ".join(map(str, ch))) for i, ch in enumerate(chunks)]
+        out.append("/-- C: what the real `cmd_in_buf`, `first_cmd_in_buf` and (when a command was found) `next_cmd_in_buf` do on every buffer\n"
+                   "    over {NUL, 'a'} of length L <= 5 (then one NUL, then 0xA5 garbage), every text_start <= text_end <= L, line mode and\n"
+                   "    SINGLE_CHAR.  One number per configuration, bit fields from the low end: single:1 L:3 bits:5 start:3 end:3 cmd_in_buf:1\n"
+                   "    ret+1:3 start':3 end':3 text':16 strlen(ret):3 start'':3 end'':3 text'':16 (text codes: first 8 bytes as base-4 digits,\n"
+                   "    0 = NUL, 1 = 'a', 2 = 0xA5, 3 = other) -/\n"
+                   "def xTable : List Nat := " + " ++ ".join("xTable%d" % i for i in range(len(chunks))))
+        return "\n".join(out)
+
+    def edit_bytes(self, lines):
+        """which bytes telnet_neg treats as erase-previous-character, which bytes add_console_line turns into the
+        command terminator - read off the real functions for every byte value (harness `edprobe`)"""
+        rs = [l.split() for l in lines if l.startswith("e ")]
+        if len(rs) != 255 or any(len(r) != 5 for r in rs):
+            raise X.TieBroken("edit-bytes", "edprobe failed: %s" % " / ".join(lines[-3:])[:300])
+        edit, nul = [], []
+        for r in rs:
+            b = int(r[1])
+            bb = "%02x" % b
+            if (r[2], r[3]) == ("61" + "62" + bb + "63", bb + "63"):
+                pass
+            elif (r[2], r[3]) == ("6163", "63"):
+                edit.append(b)
+            else:
+                raise X.TieBroken("edit-bytes", "telnet_neg treats byte %d in a way the model does not know: %s %s" % (b, r[2], r[3]))
+            if r[4] == "61" + bb + "63":
+                pass
+            elif r[4] == "610063":
+                nul.append(b)
+            else:
+                raise X.TieBroken("edit-bytes", "add_console_line stores byte %d as %s" % (b, r[4]))
+        return ("/-- C: the bytes for which the real `telnet_neg` removes the previous character (every other non-NUL byte was observed\n"
+                "    to be copied verbatim) -/\ndef tnEditBytes : List Nat := [%s]\n"
+                "/-- C: the bytes the real `add_console_line` converts into the command terminator NUL (every other byte verbatim) -/\n"
+                "def consoleNulBytes : List Nat := [%s]" % (", ".join(map(str, edit)), ", ".join(map(str, nul))))
+
     def prepare(self, ctx):
-        self.exe = E.compile_harness("c13", [os.path.join(E.VERIF, "harness/c13/c13.c")], exclude_objs=("comm.c.o",))
+        if not getattr(self, "exe", None):      # normally built by gen_extra (cc_table)
+            self.exe = E.compile_harness("c13", [os.path.join(E.VERIF, "harness/c13/c13.c"), os.path.join(E.VERIF, "harness/c13/c13w.c")], exclude_objs=("comm.c.o",))
         self.conf = E.make_mudlib(ctx.rundir)
 
     def run_impl(self, ctx, cases):
@@ -366,6 +561,13 @@ class C13(Prop):
         add("console-full-partial", "console", [b"a\n" + b"p" * 2045, b"\n", b"x\n"], console=True, inter="each")
         add("console-stall-2047", "console", [b"p" * 2047, b"\n", b"look\n", b"q" * 2047, b"r" * 2048, b"say hi\n"], console=True, inter="each")
         add("console-nofit-with-command-pending", "console", [b"a\n" + b"p" * 2040, b"zzzzzzzz\n", b"x\n"], console=True, inter="end")
+        # console input through the real worker procedure and process_io (read size CONSOLE_MAX_LINE-1, terminator, queue)
+        def wp(name, blobs, tail=("drain",)):
+            B.append(E.Case("b-wpipe-" + name, ["port console"] + ["wpipe " + hx(x) for x in blobs] + list(tail), {"origin": "boundary", "port": "console"}))
+        wp("lines", [b"look\nsay hi\r\n", b"par", b"tial\n", b""])
+        for n in (2046, 2047, 2048, 4093, 4094, 4095, 4096, 4097, 8190, 9000):
+            wp("long-%d" % n, [b"w" * n + b"\nok\n", b"next\n"])
+        wp("exact-4095-then-line", [b"a\n" + b"z" * 4093, b"\nlast\n"])
         # binary
         add("binary-verbatim", "binary", [bytes(range(256)), b"\xff\xfa\x18\xff\xf0\r\n\0", b"z" * 3000])
         # single character mode (memory safety only)
@@ -373,6 +575,21 @@ class C13(Prop):
         B.append(E.Case("b-single-then-line-partial-move", ["port telnet", "iflag single", "chunk " + hx(b"ab"), "iflag line", "extract",
                         "chunk " + hx(b"c\r\n"), "drain", "iflag single", "chunk " + hx(b"\0\0xy"), "iflag line", "extract", "extract",
                         "chunk " + hx(b"z\r\n"), "drain"], {"origin": "boundary"}))
+        # get_char() / input_to() / serve: real set_call, call_function_interactive, reframe_single_char_input
+        def raw(name, lines):
+            B.append(E.Case("b-" + name, ["port telnet"] + lines, {"origin": "boundary", "port": "telnet"}))
+        ch = lambda b: "chunk " + hx(b)
+        raw("getchar-typeahead-line", [ch(b"ab"), "getchar", "serve", ch(b"look\r\nx"), "getchar", "serve", "serve", "serve", ch(b"\r\n"), "drain"])
+        raw("getchar-noecho-linemode", [ch(bytes([IAC, WILL, LM])), "getchar noecho", ch(b"yes\r\nn\r"), "serve", ch(b"\n"), "drain",
+                                        "inputto noecho", "inputto", ch(b"pw\r\n"), "serve", "getchar", "getchar noecho", "serve"])
+        raw("getchar-sga-reframe-mixed", [ch(bytes([IAC, WILL, TT])), "getchar", ch(b"a\rb\r\0c\r\r\nd"), "serve", "drain", ch(b"\r\n"), "drain"])
+        raw("getchar-cr-then-lf-after-mode-end", [ch(b"q\0"), "getchar", ch(b"go north\r"), "serve", ch(b"\nsouth\r\n"), "serve", "drain"])
+        for pairs in (680, 681, 682, 683, 684, 800):
+            # raw CR LF pairs buffered in single-char mode expand 2 -> 3 bytes when reframed: room test of reframe
+            raw("reframe-room-%d" % pairs, ["getchar", "send " + hx(b"x\0" + b"\r\n" * pairs + b"t"), "read", "read", "read", "read", "serve",
+                                           "drain", ch(b"\r\nafter\r\n"), "drain"])
+        raw("reframe-room-lone-crs", ["getchar", "send " + hx(b"x\0" + b"a\r" * 700 + b"\r\n"), "read", "read", "read", "read", "serve", "drain"])
+        raw("inputto-then-extract", ["inputto noecho", ch(b"secret\r\nnext\r\n"), "extract", "serve", "inputto", "drain"])
         add("single-char-full", "telnet", [b"s" * 682, b"s" * 682, b"s" * 682, b"s" * 682], single_at=0, inter="end")
         return B
 
@@ -398,7 +615,7 @@ class C13(Prop):
             i += 1
             cid = "g%d" % i
             kind = rng.weighted([("tshort", 6), ("tmix", 8), ("tmal", 5), ("tlong", 2), ("ascii", 4), ("asciilong", 1), ("binary", 1),
-                                 ("console", 3), ("single", 1)])
+                                 ("console", 3), ("single", 1), ("getchar", 2)])
             if kind == "tshort":
                 # short stream: the unsplit run plus ALL 2-splits
                 s = self.g_telnet_stream(rng, rng.range(2, 5), rng.choice(["text", "telnet", "telnet", "malformed"]))[:28]
@@ -440,22 +657,54 @@ class C13(Prop):
                 if rng.chance(1, 5):
                     s += b"w" * rng.choice([2040, 2046, 2047, 2048]) + b"\n"
                 s += b"\n"
+                if rng.chance(1, 6):
+                    s = b"v" * rng.choice([4090, 4095, 4096, 6000]) + b"\n" + s
                 for how in ("one", "few", "many"):
-                    C.append(self.mk_case("%s-%s" % (cid, how), "console", self.segment(rng, s, how), rng,
-                                          rng.choice(["end", "each", "rand"]), console=True))
+                    c = self.mk_case("%s-%s" % (cid, how), "console", self.segment(rng, s, how), rng,
+                                     rng.choice(["end", "each", "rand"]), console=True)
+                    if rng.chance(1, 2):        # the same blobs arrive on the stdin pipe (real worker + process_io)
+                        c.lines = [("wpipe " + l[5:]) if l.startswith("line ") else l for l in c.lines]
+                    C.append(c)
+            elif kind == "getchar":
+                # the user object switches modes with get_char() / input_to(); lines typed ahead in single-char mode
+                # are reframed when the mode ends
+                s = self.g_telnet_stream(rng, rng.range(3, 30), rng.choice(["text", "text", "telnet", "malformed"])) + b"\r\n"
+                if rng.chance(1, 4):
+                    s = b"\r\n" * rng.range(300, 700) + s
+                for how in ("few", "many"):
+                    lines = ["port telnet"]
+                    if rng.chance(1, 2):
+                        lines.append("chunk " + hx(bytes([IAC, rng.choice([WILL, WONT]), rng.choice([LM, TT, SGA])])))
+                    for c in self.segment(rng, s, how):
+                        k = rng.weighted([("none", 4), ("getchar", 3), ("inputto", 1), ("serve", 4), ("extract", 1), ("drain", 1)])
+                        if k in ("getchar", "inputto"):
+                            lines.append(k + (" noecho" if rng.chance(1, 3) else ""))
+                        elif k != "none":
+                            lines.append(k)
+                        lines.append("chunk " + hx(c))
+                    lines += ["serve", "serve", "finish", "drain"]
+                    C.append(E.Case("%s-%s" % (cid, how), lines, {"origin": "generated", "port": "telnet"}))
             else:
                 s = self.g_telnet_stream(rng, rng.range(3, 30), rng.choice(["text", "telnet", "malformed"])) + b"\r\n"
                 ch = self.segment(rng, s, rng.choice(["few", "many"]))
                 C.append(self.mk_case(cid, "telnet", ch, rng, "rand", single_at=rng.below(max(1, len(ch)))))
         return C
 
+    def shrink_ok(self, lines):
+        """a shrunk case is still a case: scripted callback outcomes, then `port`, then steps"""
+        body = [l for l in lines if not l.startswith("cb ")]
+        return bool(body) and body[0].startswith("port ") and len(body) > 1
+
     def mutate_around(self, case, rng, n):
         """re-segment the stream of the differing case"""
-        port = case.meta.get("port") or (case.lines[0].split()[1] if case.lines else "telnet")
+        port = case.meta.get("port")
+        if not port:        # corpus / known-finding cases: comment and `cb` lines may precede the `port` line
+            pl = [l.split() for l in case.lines if l.startswith("port ")]
+            port = pl[0][1] if pl and len(pl[0]) == 2 and pl[0][1] in ("telnet", "ascii", "binary", "console") else "telnet"
         data = b""
         for l in case.lines:
             t = l.split()
-            if len(t) == 2 and t[0] in ("chunk", "send", "line") and t[1] != "-":
+            if len(t) == 2 and t[0] in ("chunk", "send", "line", "wpipe") and t[1] != "-":
                 data += bytes.fromhex(t[1])
         out = []
         for i in range(n):
@@ -473,6 +722,8 @@ class C13(Prop):
             for l in c.lines:
                 if l.startswith("cb "):
                     h["scripted_" + l.split()[-1]] = h.get("scripted_" + l.split()[-1], 0) + 1
+                elif l.startswith(("getchar", "inputto", "serve")):
+                    h["op_" + l.split()[0]] = h.get("op_" + l.split()[0], 0) + 1
                 elif l == "iflag single":
                     h["single_char_cases"] = h.get("single_char_cases", 0) + 1
             h["cases_by_port"][port] = h["cases_by_port"].get(port, 0) + 1
